@@ -34,7 +34,7 @@ func clone(s *hx.Schema) *hx.Schema {
 // MutationKinds is the rule catalogue (one entry per way of breaking a rule).
 var MutationKinds = []string{
 	// R1 references defined
-	"ref-field-type", "ref-arg-type", "ref-inputfield-type", "ref-dirarg-type", "ref-union-member", "ref-interface", "ref-directive-on-type", "ref-directive-on-field", "ref-directive-on-enumvalue",
+	"ref-field-type", "ref-arg-type", "ref-inputfield-type", "ref-dirarg-type", "ref-union-member", "ref-interface", "ref-directive-on-type", "ref-directive-on-field", "ref-directive-on-enumvalue", "ref-directive-with-modifier",
 	// R2 names unique, well-formed, not reserved
 	"dup-type", "dup-field", "dup-arg", "dup-enum-value", "dup-input-field", "dup-directive",
 	"reserved-type", "reserved-field", "reserved-arg", "reserved-enum-value", "reserved-input-field", "reserved-directive", "digit-type-name", "digit-field-name", "enum-value-keyword", "schema-unknown-operation",
@@ -226,6 +226,20 @@ func Mutate(t *rapid.T, base *hx.Schema, kind string) (s *hx.Schema, m Mutation,
 		f := fs[pick(len(fs), "site")]
 		f.f.Dirs = append(f.f.Dirs, hx.DirUse{Name: "nope"})
 		m.Names, m.Position = []string{"nope"}, "field"
+	case "ref-directive-with-modifier":
+		// '@nope!' / '@[nope]': type modifiers on a directive name must not hide that it is undefined
+		fs := fieldSites(s, hx.KObject, hx.KInterface)
+		f := fs[pick(len(fs), "site")]
+		name := []string{"nope!", "[nope]", "[nope!]!"}[pick(3, "modifier")]
+		if len(f.f.Args) > 0 && pick(2, "onArg") == 0 {
+			a := f.f.Args[pick(len(f.f.Args), "arg")]
+			a.Dirs = append(a.Dirs, hx.DirUse{Name: name})
+			m.Position = "argument"
+		} else {
+			f.f.Dirs = append(f.f.Dirs, hx.DirUse{Name: name})
+			m.Position = "field"
+		}
+		m.Names = []string{"nope"}
 	case "ref-directive-on-enumvalue":
 		es := kindsOf(s, hx.KEnum)
 		if len(es) == 0 {
